@@ -104,7 +104,9 @@ Matches(op, needle, hay) ==
 Silent(op, needle, hay) ==
   LET th == TypedHay(hay)  tn == TypedNeedle(needle) IN
   \/ th.ty = "odd" \/ tn.ty = "odd"
-  \/ th.ty = "none" \/ tn.ty = "none"                     \* None look-alikes
+  \/ tn.ty = "none"                                        \* the needle "None"
+  \* a null value: its text is Python's "None"; only terms that overlap that text (or ordering / regex) are open
+  \/ (th.ty = "none" /\ (op \in {">", "<", ">=", "<=", "=~"} \/ Contains("None", needle) \/ needle = ""))
   \/ (th.ty = "bool") # (tn.ty = "bool") /\ (IsNum(th) /\ IsNum(tn))   \* bool against a number
   \/ (th.ty = "bool" /\ op \in {">", "<", ">=", "<="})    \* ordering of booleans
   \/ (tn.ty = "bool" /\ op \in {">", "<", ">=", "<="})
